@@ -228,6 +228,13 @@ def run_case(case, ctx):
       ctx.violation({"kind": "output_shape_changed", "layer_class": cn}, "%s: %s -> %s" % (l.name, l.output_shape, ql.output_shape), None)
     exp = expected(l, d, bits)
     sig = {"layer_class": cn}
+    # weight transfer concerns every layer of the new model (selected or not, trainable or not)
+    if tw and l.get_weights():
+      ctx.count("weight_transfers_checked")
+      a, b = l.get_weights(), ql.get_weights()
+      if len(a) != len(b) or not all(np.array_equal(x, y) for x, y in zip(a, b)):
+        which = [w.name.split("/")[-1].split(":")[0] for w, x, y in zip(l.weights, a, b) if not np.array_equal(x, y)] if len(a) == len(b) else ["count"]
+        ctx.violation(dict(sig, kind="weights_not_transferred"), "%s: %s differ from the source" % (l.name, which), None)
     if exp is None:
       n_unsel += 1
       ctx.count("unselected_layers")
@@ -290,11 +297,6 @@ def run_case(case, ctx):
         continue
       if k in qc and json.dumps(qc[k], sort_keys=True) != json.dumps(v, sort_keys=True):
         ctx.violation(dict(sig, kind="hyper_parameter_changed", key=k), "%s.%s: %r -> %r" % (l.name, k, v, qc[k]), None)
-    if tw and l.get_weights():
-      ctx.count("weight_transfers_checked")
-      a, b = l.get_weights(), ql.get_weights()
-      if len(a) != len(b) or not all(np.array_equal(x, y) for x, y in zip(a, b)):
-        ctx.violation(dict(sig, kind="weights_not_transferred"), l.name, None)
   if n_sel and n_unsel:
     ctx.nontrivial(json.dumps(spec, sort_keys=True), json.dumps(d, sort_keys=True), bits, tw)
   ctx.sample({"layers": [(l["t"], l["name"]) for l in spec["layers"]], "dict": d, "activation_bits": bits,
